@@ -195,3 +195,12 @@ G10_grid = [
     r('Mesh2D._grid_centroids', [P2, Z, Z, Q, Q], name='Mesh2D__grid_centroids'),
 ]
 LAYERS.append(('G10_grid', G10_grid))
+
+G11_sub = [
+    r('Polygon2D.offset', [POLY2, Q], name='Polygon2D_offset'),
+    r('LineSegment2D.subdivide_evenly', [SEG2, Z], name='LineSegment2D_subdivide_evenly'),
+    r('LineSegment3D.subdivide_evenly', [SEG3, Z], name='LineSegment3D_subdivide_evenly'),
+    r('Face3D.sub_rects_from_rect_ratio', [PLANE, Q, Q, Q, Q, Q, Q, Q], name='Face3D_sub_rects_from_rect_ratio'),
+    r('Face3D.sub_rects_from_rect_dimensions', [PLANE, Q, Q, Q, Q, Q, Q], name='Face3D_sub_rects_from_rect_dimensions'),
+]
+LAYERS.append(('G11_sub', G11_sub))
